@@ -120,26 +120,78 @@ def pool_facts(repo):
     joinp = False
     if j:
         jb = j.group(1)
-        joinp = re.search(r"wait\(\s*lock\s*,\s*\[this\]\s*\{\s*return\s+active\s*==\s*0\s*&&\s*this->tasks\.empty\(\)\s*;\s*\}\s*\)", jb) is not None \
+        w = re.search(r"wait\(\s*lock\s*,\s*\[this\]\s*\{\s*return\s+([^;{}]*);\s*\}\s*\)", jb)
+        conj = [c.strip() for c in w.group(1).split("&&")] if w else []
+        # the wait predicate is the conjunction of `active == 0` and `tasks.empty()` (in either order, nothing else)
+        joinp = sorted(re.sub(r"\s+", "", c).replace("this->", "") for c in conj) == ["active==0", "tasks.empty()"] \
             and "std::unique_lock<std::mutex> lock(this->queue_mutex)" in jb
     enq = re.search(r"void\s+thread_pool::enqueue\(.*?\{\s*\{\s*std::lock_guard<std::mutex>\s+lock\(this->queue_mutex\);\s*this->tasks\.push\(f\);", src, re.S) is not None
     return {"take_atomic": take, "finish_locked": fin, "join_predicate": joinp, "enqueue_locked": enq}
 
 
+def pool_accesses(repo):
+    """Every read or write of tasks / active / stop in thread_pool.cpp: (function, variable, lexically inside a scope holding a
+    std::unique_lock / std::lock_guard on queue_mutex that was constructed BEFORE the access). Deferred / released locks make
+    everything after them count as unlocked."""
+    src = strip_comments(open(os.path.join(repo, "smt/concurrent/thread_pool.cpp")).read())
+    fns = []
+    for m in re.finditer(r"thread_pool::(~?thread_pool|enqueue|join|\w+)\s*\(", src):
+        nm = m.group(1)
+        kind = {"thread_pool": "PWorker", "~thread_pool": "PDtor", "enqueue": "PEnqueue", "join": "PJoin"}.get(nm, "POtherFn")
+        b0 = src.find("{", m.end())
+        if b0 < 0:
+            continue
+        depth, p = 0, b0
+        while p < len(src):
+            if src[p] == "{":
+                depth += 1
+            elif src[p] == "}":
+                depth -= 1
+                if depth == 0:
+                    break
+            p += 1
+        fns.append((b0, p, kind))
+    locks = []
+    for m in re.finditer(r"std::(?:unique_lock|lock_guard|scoped_lock)<\s*std::mutex\s*>\s+(\w+)\s*\(([^;]*?)\)\s*;", src):
+        args = m.group(2)
+        if "queue_mutex" not in args or "defer_lock" in args or "try_to_lock" in args or "adopt_lock" in args:
+            continue
+        end = scope_end(src, m.end())
+        # an explicit unlock / release of this lock object ends the protection there
+        u = re.search(r"\b" + re.escape(m.group(1)) + r"\s*\.\s*(?:unlock|release)\s*\(", src[m.end():end])
+        if u:
+            end = m.end() + u.start()
+        locks.append((m.end(), end))
+    out = []
+    for m in re.finditer(r"(?<![\w.>])(?:this->)?(tasks|active|stop)\b(?!\s*\()", src):
+        pos = m.start()
+        var = {"tasks": "PTasks", "active": "PActive", "stop": "PStop"}[m.group(1)]
+        fn = "POtherFn"
+        for b0, b1, kind in fns:
+            if b0 < pos < b1:
+                fn = kind
+        locked = any(l0 <= pos < l1 for l0, l1 in locks)
+        out.append((fn, var, locked))
+    return out
+
+
 def gen_v(repo):
     table, notes, joined = footprint(repo)
     pf = pool_facts(repo)
+    pa = pool_accesses(repo)
     b = lambda x: "true" if x else "false"
     lines = ["(* GENERATED by tools/lra_footprint.py from smt/arith/lra/lra_theory.cpp (lambda of lra_theory::pivot under PARALLELIZE) and",
              "   smt/concurrent/thread_pool.cpp. Do not edit. *)",
              "From Coq Require Import List Bool.", "From ORatio Require Import smt.Pivot.", "Import ListNotations.", "",
              "Definition table : list fentry :=", "  [" + ";\n   ".join("mkF %s %s %s" % (o, b(a), b(g)) for o, a, g in table) + "].", "",
+             "(* every access to tasks / active / stop in thread_pool.cpp, in textual order: function, variable, under a lock on queue_mutex *)",
+             "Definition pool_table : list paccess :=", "  [" + ";\n   ".join("mkPA %s %s %s" % (f, v, b(l)) for f, v, l in pa) + "].", "",
              "Definition join_follows_the_enqueue_loop : bool := %s." % b(joined),
              "Definition pool_take_atomic : bool := %s.     (* active++ and tasks.pop() in one critical section of queue_mutex *)" % b(pf["take_atomic"]),
              "Definition pool_finish_locked : bool := %s.   (* active-- under queue_mutex *)" % b(pf["finish_locked"]),
              "Definition pool_join_predicate : bool := %s.  (* join waits for active == 0 && tasks.empty() under queue_mutex *)" % b(pf["join_predicate"]),
              "Definition pool_enqueue_locked : bool := %s.  (* tasks.push under queue_mutex *)" % b(pf["enqueue_locked"]), ""]
-    return "\n".join(lines), {"entries": table, "notes": notes, "pool": pf, "join_after_enqueue": joined}
+    return "\n".join(lines), {"entries": table, "notes": notes, "pool": pf, "pool_accesses": pa, "join_after_enqueue": joined}
 
 
 if __name__ == "__main__":
